@@ -116,6 +116,7 @@ func TestVerifReplay(t *testing.T) {
 		outcome, detail := VerifRun(c.Events, func() { %(call)s })
 		results = append(results, verifResult{c.ID, outcome, detail, VerifOuts, VerifFailed, VerifReached})
 	}
+	VerifReset(nil) // removes the scratch directory of the last case
 	out, _ := json.Marshal(results)
 	if err := os.WriteFile(os.Getenv("VERIF_REPLAY_OUT"), out, 0o644); err != nil {
 		t.Fatal(err)
